@@ -209,7 +209,9 @@ func runSmon(proto int, toks []string) (res string) {
 		}
 	}
 	g := gocql.VerifStreamsNew(proto)
-	capN := g.NumStreams()
+	// the capacity is the one the PROPERTY prescribes for the protocol version (1..127 for v1-2, 1..32767 for
+	// v3+), not the one the code under test chose
+	capN := capOf(proto)
 	held := make([]bool, capN)
 	cnt := 0
 	k := 0
@@ -326,6 +328,7 @@ type lockstep struct {
 	g      *gocql.VerifStreams
 	k      int
 	nw     int // number of bitset words
+	capN   int // capacity the property prescribes for the protocol version (NOT taken from the code under test)
 	resume []chan struct{}
 	events chan event
 	gids   map[uint64]int // goroutine id -> thread index
@@ -466,7 +469,7 @@ func (ls *lockstep) thread(t int, script []string) {
 				if ls.protocol && ls.held[id] {
 					ls.monitor += fmt.Sprintf(" MONITOR:duplicate-id-%d", id)
 				}
-				if !ls.c0 && (id < 1 || id >= ls.g.NumStreams()) {
+				if !ls.c0 && (id < 1 || id >= ls.capN) {
 					ls.monitor += fmt.Sprintf(" MONITOR:id-out-of-range-%d", id)
 				}
 				ls.held[id] = true
@@ -512,7 +515,7 @@ func (ls *lockstep) clear(t, id int) string {
 		ls.rel[id]++                          // the bit was cleared and the counter decremented before the panic
 		ls.negPanic = append(ls.negPanic, id) // judged by the scheduler, after the bookkeeping of this decision
 	case "crash:index":
-		if id < ls.g.NumStreams() {
+		if id < ls.capN {
 			ls.monitor += fmt.Sprintf(" MONITOR:index-panic-in-Clear-%d", id)
 		}
 	default:
@@ -682,6 +685,10 @@ func runConcX(proto, k int, pre []string, scripts [][]string, sched []int, choos
 		inGet: make([]bool, k), nsteps: make([]int, k)}
 	ls.cur = append([]uint64{}, ls.w0...)
 	ls.nw = len(ls.w0)
+	ls.capN = capOf(proto)
+	if 64*ls.nw != ls.capN {
+		ls.monitor += fmt.Sprintf(" MONITOR:protocol-%d-bitset-of-%d-ids-instead-of-%d", proto, 64*ls.nw, ls.capN)
+	}
 	for t := 0; t < k; t++ {
 		ls.resume[t] = make(chan struct{})
 		ls.curClear[t], ls.pendAcq[t] = -1, -1
@@ -809,9 +816,13 @@ func runConcX(proto, k int, pre []string, scripts [][]string, sched []int, choos
 				break
 			}
 		}
-		// (2) Available() = number of zero bits of the bitset
+		// (2) Available() = number of zero bits of the bitset = number of free ids among 0..cap-1, cap = the
+		// capacity of the protocol version
 		zeros := 0
-		for _, v := range wEnd {
+		for w, v := range wEnd {
+			if 64*w >= ls.capN {
+				break
+			}
 			for j := 0; j < 64; j++ {
 				if v>>uint(j)&1 == 0 {
 					zeros++
@@ -829,7 +840,7 @@ func runConcX(proto, k int, pre []string, scripts [][]string, sched []int, choos
 	}
 	if ls.protocol { // additionally, under the client protocol: held ids = set bits, no panic at all
 		if !ls.unquiet {
-			if want := fmt.Sprintf("a=%d", g.NumStreams()-1-len(ls.held)); want != doAvail(g) {
+			if want := fmt.Sprintf("a=%d", ls.capN-1-len(ls.held)); want != doAvail(g) {
 				ls.monitor += " MONITOR:available-" + doAvail(g) + "-but-held-" + want
 			}
 			if len(ls.held) != len(idsInUse(g)) {
@@ -1081,9 +1092,9 @@ func shuffle(r *vh.Rng, a []int) {
 // number of ids in use of a word, first / last word, id 1, id cap-1, whole words, runs, random subsets; double
 // releases, releases of free and out-of-range ids), refill (exactly / beyond / partly), repeat.
 func genSmon(r *vh.Rng, out *vh.Out) {
-	proto := []int{1, 2, 2, 2, 2, 2, 3, 4}[r.Intn(8)]
+	proto := []int{1, 2, 2, 1, 2, 2, 3, 4, 5}[r.Intn(9)]
 	if proto > 2 && (r.Intn(bigSmonOneIn) != 0 || bigSmonBudget == 0) {
-		proto = 2
+		proto = 1 + r.Intn(2)
 	}
 	if proto > 2 {
 		bigSmonBudget--
@@ -1228,9 +1239,9 @@ func genSmon(r *vh.Rng, out *vh.Out) {
 // genConcRace: racing releases of ONE id by 2..3 goroutines (double release), together with acquisitions and
 // other releases, on generators with few or many ids in use.
 func genConcRace(r *vh.Rng, out *vh.Out) {
-	proto := 2
+	proto := 1 + r.Intn(2) // both protocol versions of the small capacity
 	if r.Intn(10) == 0 {
-		proto = 3
+		proto = 3 + r.Intn(3) // every protocol version of the large capacity
 	}
 	var pre []string
 	var inUse []int
@@ -1385,9 +1396,9 @@ func genSchedule(r *vh.Rng, k, n int) []int {
 }
 
 func genConc(r *vh.Rng, out *vh.Out) {
-	proto := 2
+	proto := 1 + r.Intn(2) // both protocol versions of the small capacity
 	if r.Intn(8) == 0 {
-		proto = 3
+		proto = 3 + r.Intn(3) // every protocol version of the large capacity
 	}
 	k := 2 + r.Intn(3)
 	pre, inUse := genPrefill(r, proto)
@@ -1610,9 +1621,9 @@ func fixedWindows(out *vh.Out) {
 var bigWindowBudget = 12
 
 func genWindow(r *vh.Rng, out *vh.Out) {
-	proto := 2
+	proto := 1 + r.Intn(2) // both protocol versions of the small capacity
 	if r.Intn(10) == 0 && bigWindowBudget > 0 {
-		proto = 3
+		proto = 3 + r.Intn(3) // every protocol version of the large capacity
 		bigWindowBudget--
 	}
 	capN := capOf(proto)
@@ -1816,9 +1827,9 @@ var bigOffsetBudget = 2
 var bigOffsetFills = false
 
 func genOffset(r *vh.Rng, out *vh.Out) {
-	proto := 2
+	proto := 1 + r.Intn(2) // both protocol versions of the small capacity
 	if r.Intn(40) == 0 && bigOffsetBudget > 0 {
-		proto = 3
+		proto = 3 + r.Intn(3) // every protocol version of the large capacity
 		bigOffsetBudget--
 	}
 	capN := capOf(proto)
